@@ -78,6 +78,11 @@ def gen_cases(ck):
         pieces, text = laid[rng.randrange(len(laid))]
         for k, t in g.near_miss_names(rng, pieces, per_text=3):
             add(t, "name_" + k)
+    # grammar-aware near misses: every list kind x every almost-legal list shape (extra, missing or
+    # doubled commas, bare and typed entries mixed in every order, ':' without type, type without
+    # name), type-prefix combinations, arrows, member shapes, keywords as names (deterministic)
+    for k, t in g.near_miss_lists():
+        add(t, "shape_" + k)
     # truncation at every byte
     trunc_src = [t.encode() for t in FIXED_TEXTS]
     short = sorted((t for _, t in laid if 20 < len(t) < (160 if quick else 400)), key=len)
